@@ -474,6 +474,29 @@ pub fn run(ctx: &Ctx) {
             p.trns = None;
             emit_png(&mut out, &p, "paeth_ties");
         }
+        // exact Paeth ties that discriminate the order of the tests: (left a, up b, upleft c) with
+        // 2a+b=3c (pb==pc<pa: the standard picks b) and a+2b=3c (pa==pc<=pb: the standard picks a)
+        for k in 0..16u32 {
+            let w = 8usize;
+            let mut row0 = vec![0i32; w];
+            let mut row1 = vec![0i32; w];
+            row0[0] = r.range(60, 190) as i32;
+            for x in 1..w {
+                let c = row0[x - 1];
+                let mut d = r.range(1, 3) as i32 * if r.chance(1, 2) { 1 } else { -1 };
+                let fam1 = (k + x as u32) % 2 == 0;
+                let (a, b) = if fam1 { (c + d, c - 2 * d) } else { (c - 2 * d, c + d) };
+                let (a, b) = if (0..=255).contains(&a) && (0..=255).contains(&b) { (a, b) } else { d = 0; (c + d, c) };
+                row1[x - 1] = a;
+                row0[x] = b;
+            }
+            row1[w - 1] = r.below(256) as i32;
+            let mut p = gen_png(&mut r, 0, 8, false, w as u32, 2, 0);
+            p.samples = row0.iter().chain(row1.iter()).map(|v| *v as u16).collect();
+            p.filters = vec![(k % 5) as u8, 4];
+            p.trns = None;
+            emit_png(&mut out, &p, "paeth_exact_ties");
+        }
         // (c) random
         let n = if ctx.thorough() { 1500 } else { 260 };
         for i in 0..n {
